@@ -24,6 +24,7 @@ EXTRA_NUMERALS = ["12.5", "1e3", "-1.5e-2", ".5", "5.", "96", "25.4", "1e-7", "1
                   "0", "-0", "1E2", "+7"]
 SPACES = [("", ""), (" ", ""), ("", " "), ("\t ", " \n"), ("", "")]
 REF = 250.0
+READER_REFS = (REF, 1, 0, 0.0, 1056.0)    # references handed to the attribute reader for %
 
 
 def _lib():
@@ -82,10 +83,14 @@ def check_valid(numeral, unit, space_idx):
         if not close(back, value) and not (value == 0 and back == 0):
             out.append(("back", f"userUnitToUnits(unitsToUserUnits({desc}), {unit!r}) = {back!r}, "
                         f"expected the original value {float(value)!r}"))
-        px_len = plot_utils.getLength(stub(text), "width", REF)
-        if not close(px_len, want_user) and not (want_user == 0 and px_len == 0):
-            out.append(("getLength", f"getLength(<{desc}>, default={REF}) = {px_len!r}, expected "
-                        f"{float(want_user)!r}"))
+        for ref_doc in (READER_REFS if unit == "%" else (REF, 0)):
+            # the attribute reader takes the percentage of whatever reference is supplied,
+            # a zero reference included; absolute units do not depend on it
+            want_px = value * F(ref_doc) / 100 if unit == "%" else want_user
+            px_len = plot_utils.getLength(stub(text), "width", ref_doc)
+            if not close(px_len, want_px) and not (want_px == 0 and px_len == 0):
+                out.append(("getLength", f"getLength(<{desc}>, default={ref_doc!r}) = {px_len!r}, "
+                            f"expected {float(want_px)!r}"))
         inches = plot_utils.getLengthInches(stub(text), "width")
         if unit == "%":
             if inches is not None:
@@ -215,7 +220,9 @@ def run(ctx):
     }
     assumptions = ["96 px per inch; factors in/mm/cm/pt/pc/Q from SVG/CSS as exact rationals",
                    "nan/inf/underscore literals and values overflowing to infinity are outside "
-                   "the quantifier; percent reference 0 is not asserted"]
+                   "the quantifier; a zero reference is asserted for the attribute reader "
+                   "(getLength: x% of 0 is 0) but not for unitsToUserUnits, whose optional "
+                   "reference is documented as 'absent or falsy means none'"]
     return {"part": part, "coverage": coverage, "assumptions": assumptions}
 
 
